@@ -47,7 +47,7 @@ func c18ParseVec(s string) c18Vec {
 
 type c18Scenario struct {
 	find, replace, findNone, replaceNone, failing string
-	files                                        map[string]string
+	files                                         map[string]string
 }
 
 var c18Scenarios = []c18Scenario{
@@ -102,7 +102,7 @@ var c18Scenarios = []c18Scenario{
 	},
 }
 
-var c18Patterns = map[string]string{"one": "a1.txt", "several": "a*.txt", "glob": "*/n*.txt", "noneMatching": "zz*.none"}
+var c18Patterns = map[string]string{"one": "a1.txt", "several": "a*", "glob": "*/n*.txt", "noneMatching": "zz*.none"}
 
 const (
 	c18JsonFile  = "out.json"
@@ -144,6 +144,13 @@ func c18Populate(dir string, sc c18Scenario, v c18Vec, prog string) error {
 	// one more name the patterns select: a symbolic link to a1.txt (a path that names a file is searched like a file)
 	if _, err := os.Stat(filepath.Join(dir, "a1.txt")); err == nil {
 		if err := os.Symlink("a1.txt", filepath.Join(dir, "a1link.txt")); err != nil {
+			return err
+		}
+	}
+	// ... and the output of an earlier NEW-mode run that the "several" pattern also selects: a *.vored file is a file
+	// like any other to a later invocation, whatever its mode
+	if data, err := os.ReadFile(filepath.Join(dir, "a2.txt")); err == nil {
+		if err := os.WriteFile(filepath.Join(dir, "a0.txt.vored"), append([]byte("ab 9 "), data...), 0o644); err != nil {
 			return err
 		}
 	}
